@@ -8,7 +8,7 @@ import (
 )
 
 var vDocs = []string{`"ab"`, `{"k":[1,2,{"x":null}]}`, `12345`, `[true,false,"é"]`}
-var vBadDocs = []string{`{"k":`, `nope`, ``, `[1,2`}
+var vBadDocs = []string{`{"k":`, `nope`, ``, `[1,2`, `{"a":1} trailing`, `{"a":1}{"a":2}`, `1 2`, `[1]]`}
 
 // C19.write: wsjson.Write sends exactly one text message whose payload is the JSON encoding of the value.
 func verifC19_write() {
@@ -34,6 +34,7 @@ func verifC19_write() {
 func verifC19_read() {
 	client := websocket.VerifParam("client", 1) == 1
 	websocket.VerifGhostPoolMode(0) // pool hits: the second read reuses the first read's buffer
+	websocket.VerifGhostPoolMonitor(true)
 	d1 := vDocs[websocket.VerifChoose("doc1", len(vDocs))]
 	bad := websocket.VerifChoose("bad", 2) == 1
 	var d2 string
@@ -66,6 +67,8 @@ func verifC19_read() {
 		_, n := websocket.VerifCloseCode(out())
 		websocket.VerifAssert(n == 0, "C19.read.no-close")
 	}
+	// the pooled buffer is returned exactly once per read and not used afterwards
+	websocket.VerifAssertGhost(websocket.VerifGhostPoolViolations() == 0, "C19.pool.discipline")
 	// the first result does not alias the pooled buffer reused by the second read
 	websocket.VerifAssert(string(v1) == d1, "C19.pool.first-value-intact")
 	c.CloseNow()
